@@ -107,7 +107,7 @@ class CCodeMapper(LokiStringifyMapper):
                 name_str = name_str[1:]
             index_str = ''
             for index in expr.index_tuple:
-                d = self.format(self.rec(index, PREC_NONE, *args, **kwargs))
+                d = self.rec(index, PREC_NONE, *args, **kwargs)
                 if d:
                     index_str += self.format('[%s]', d)
             return self.format('%s%s', name_str, index_str)
